@@ -12,6 +12,9 @@ use essential_types::{
 use essential_vm::StateRead;
 use std::{collections::HashMap, sync::Arc};
 
+/// non-zero: every state read sleeps a few microseconds derived from this seed and the key (schedule jitter, C02)
+pub static JITTER: std::sync::atomic::AtomicU64 = std::sync::atomic::AtomicU64::new(0);
+
 #[derive(Clone, Default)]
 pub struct MapState(pub Arc<HashMap<(ContentAddress, Key), Result<Vec<Word>, i64>>>);
 
@@ -30,6 +33,11 @@ pub fn next_key(mut key: Key) -> Option<Key> {
 impl StateRead for MapState {
     type Error = StErr;
     fn key_range(&self, c: ContentAddress, mut key: Key, n: usize) -> Result<Vec<Vec<Word>>, StErr> {
+        let j = JITTER.load(std::sync::atomic::Ordering::Relaxed);
+        if j != 0 {
+            let h = key.iter().fold(j, |a, w| a.wrapping_mul(6364136223846793005).wrapping_add(*w as u64 ^ 0x9e37));
+            std::thread::sleep(std::time::Duration::from_micros((h >> 33) % 300));
+        }
         let mut out = vec![];
         for _ in 0..n {
             match self.0.get(&(c.clone(), key.clone())) {
